@@ -100,6 +100,10 @@ def run_behaviours(chk, prop, beh, tag="beh"):
         if o["nondeterministic"]:
             raise vlib.ToolError(f"a freshly built formatter is not deterministic for {o['nondeterministic']} ({b['cfg']})")
         chk.evaluations += o["n"]
+        # vacuity of the address-reuse binding: consecutive EntryDimensions configs with different
+        # values, and how many of them really sat at the same address (counter, not a verdict)
+        after["edims_value_changes"] = after.get("edims_value_changes", 0) + o.get("edims_pairs", 0)
+        after["edims_value_changes_at_same_address"] = after.get("edims_value_changes_at_same_address", 0) + o.get("edims_pairs_same_addr", 0)
         ks, fs = b["kinds"], b["faults"]
         for i in range(1, len(ks)):
             pairs.add((b["cfg"], ks[i - 1], fs[i - 1] if o["classes"][i - 1] == "io" else "none", ks[i]))
@@ -144,6 +148,7 @@ def run(prop, tier):
     chk.assumptions = [
         "the catalogue of 24 entry kinds x 4 writer behaviours (never fails, fails on the first byte, mid record, inside the last line) and 11 configurations represents the inputs named in the property; member values vary with the position only",
         "a writer fault is placed with the complete output of the entry (byte budget); a faulted call of a multi-line entry is compared by decision, size and membership of every delivered byte in the entry's records (split lines come out in hash order)",
+        "every entry of a history is built into the same storage after its predecessor was dropped, so configs that live inside the entry (EntryDimensions) of consecutive entries share an address (counted in positions_after.edims_value_changes_at_same_address)",
         "a freshly built formatter is the reference (its own determinism is checked once per configuration x kind)",
         "split records are compared as a multiset of lines, members of an object order-insensitively; the Timestamp of entries without one is masked",
         "TLC results are exhaustive over the abstract buffer/flag state of EmfHistory.tla, not over byte contents",
